@@ -243,8 +243,9 @@ Definition reg_step (s : N) (o : rop) : N * rout :=
   end.
 
 (* mediator inbox (message pickup): add, status, pickup n — per recipient; fault-free part of C15's model *)
-Inductive iop := IAdd (d m : N) | IStatus (d : N) | IPickup (d : N) (n : nat).
-Inductive iout := IAdded | ICount (n : nat) | IBatch (ms : list N) | IErr.   (* IErr: no inbox document yet: nothing is sent *)
+Inductive iop := IAdd (d m : N) | IStatus (d : N) | IPickup (d : N) (n : nat)
+  | IPickupFail (d : N) (n : nat).   (* batch pickup whose outbound send fails: the batch is shown to the dispatcher, the inbox keeps it *)
+Inductive iout := IAdded | ICount (n : nat) | IBatch (ms : list N) | IBatchFail (ms : list N) | IErr.   (* IErr: no inbox document yet: nothing is sent *)
 Definition istate := list (N * list N).
 Fixpoint iget (s : istate) (d : N) : option (list N) :=
   match s with [] => None | (d', l) :: r => if N.eqb d d' then Some l else iget r d end.
@@ -256,6 +257,7 @@ Definition inbox_step (s : istate) (o : iop) : istate * iout :=
                    | Some l => ((d, skipn n l) :: s, IBatch (firstn n l))
                    | None => (s, IErr)
                    end
+  | IPickupFail d n => (s, match iget s d with Some l => IBatchFail (firstn n l) | None => IErr end)
   end.
 
 (* ---------- from a trace of the interleaving semantics to a recorded history (ids = positions 0..n-1; the clock is
